@@ -77,5 +77,10 @@ int main(int argc, char **argv)
   c14::register_rect_d();
   c14::register_vec();
   c14::register_dim();
+  c14::register_narrow();
+  c14::register_narrow_mixed_a();
+  c14::register_narrow_mixed_b();
+  c14::register_strided_vec();
+  c14::register_strided_mat();
   return vrt::run(argc, argv);
 }
